@@ -23,7 +23,11 @@ impl<'a> RequestUri<'a> {
     }
 
     pub fn authority(&self) -> Option<&str> {
-        if let Some(scheme_i) = self.full.find("://") {
+        // "://" separates a scheme only if it comes before the path
+        let scheme_sep = self.full.find("://");
+        if let Some(scheme_i) =
+            scheme_sep.filter(|i| self.path_i_start == 0 || i + 3 <= self.path_i_start)
+        {
             // absolute-form, e.g. https://example.com[:port][/path][?query]
             let start = scheme_i + 3;
             if self.path_i_start == 0 {
